@@ -22,6 +22,7 @@ import Flatland.C05
 import Flatland.C06
 import Flatland.Scalar
 import Flatland.C18
+import Flatland.Spec.C04
 /-! ### reading the table -/
 namespace Flatland.Generated.ClassTable
 
@@ -291,6 +292,20 @@ def kindBoolParts : Scalar.Kind → Option (Str × Str × List Str × List Str)
 theorem boolean_default_agrees :
     ((row? "Boolean").bind boolKind).bind kindBoolParts = kindBoolParts Flatland.Generated.C04.booleanDefault ∧
     ((row? "Boolean").bind boolKind).isSome = true := by decide
+
+/-- the class-default Boolean satisfies the side conditions (`Coherent`, `CoherentNone`) of the C04 theorems that are
+    partial in them (`reset_text`; KF-C04-c is about Booleans configured otherwise): they apply to `flatland.Boolean` -/
+theorem boolean_default_coherent :
+    ((row? "Boolean").bind boolKind).map (fun k => Scalar.Spec.Coherent k && Scalar.Spec.CoherentNone k) = some true := by
+  decide
+
+/-- change detector for the documented literal defaults (`true = '1'`, `false = ''`, the two synonym tuples).  The C04
+    model itself takes them REGENERATED (so `boolean_default_agrees` only says that the two extractors agree); this pin
+    is for everything written by hand against the documented defaults (corpus cases, C12's checkbox texts, docs) -/
+theorem boolean_synonyms_pinned :
+    ((row? "Boolean").bind boolKind).bind kindBoolParts =
+      some ("1".toList, [], ["on".toList, "true".toList, "True".toList, "1".toList],
+            ["off".toList, "false".toList, "False".toList, "0".toList, []]) := by decide
 
 /-- `String.strip`, `Temporal.strip`: `True` (the kind `.string true` that `Run/C20.lean` falls back to, `.date true` in
     `C18.composeDate`); inherited unchanged by every subclass -/
